@@ -142,3 +142,28 @@ pub fn run(ops: &[(bool, Op)]) -> Result<(), (usize, Fail)> {
   }
   Ok(())
 }
+
+/// Two DISTINCT key types with the same `std::any::type_name` (declared in different blocks of one function) and different value
+/// types: state stored for one must not be visible through, or replaced by, an access for the other.
+pub fn twins() -> Result<(), Fail> {
+  let mut pie: Pie<()> = Pie::default();
+  let read_first: Box<dyn Fn(&mut Pie<()>) -> (Option<u8>, Option<u32>)> = {
+    #[derive(Clone, PartialEq, Eq, Hash, Debug)] struct K(u8);
+    impl MapKey for K { type Value = u8; }
+    { let state = pie.resource_state_mut::<K>(); let key = K(1); let mut w = key.write(state).unwrap(); w.insert(10); }
+    Box::new(|pie: &mut Pie<()>| { let state = pie.resource_state_mut::<K>(); let v = K(1).read(state).unwrap().cloned(); (v, state.get::<u32>().copied()) })
+  };
+  {
+    #[derive(Clone, PartialEq, Eq, Hash, Debug)] struct K(u8);
+    impl MapKey for K { type Value = String; }
+    let state = pie.resource_state_mut::<K>();
+    if let Some(m) = state.get::<HashMap<K, String>>() { if !m.is_empty() { fail!("C14.bounded.resource_types_with_the_same_name_are_isolated", "the second type K sees a non-empty map before storing anything"); } }
+    let got = K(1).read(state).unwrap().cloned();
+    if got.is_some() { fail!("C14.bounded.resource_types_with_the_same_name_are_isolated", "reading K(1) of the second type K yields {:?} although only the first type stored a value", got); }
+    state.set::<u32>(7);
+  }
+  let (v, u) = read_first(&mut pie);
+  if v != Some(10) { fail!("C14.bounded.resource_types_with_the_same_name_are_isolated", "the first type K stored 10 for K(1); after accesses for another type with the same type_name it reads {:?}", v); }
+  if u.is_some() { fail!("C14.bounded.resource_types_with_the_same_name_are_isolated", "state set for the second type K is visible through the first: {:?}", u); }
+  Ok(())
+}
